@@ -6,7 +6,8 @@ from props import _positions as P
 THEOREMS = ['C06_feed_tracks_coord', 'C06_advance_to_tracks_coord', 'C06_from_text_slice_coord', 'C06_coord_step',
             'C06_lexer_coords', 'C06_lexer_coords_under_H_nl', 'C06_dyn_coords_str', 'C06_dyn_coords_bytes',
             'C06_dyn_token_coords', 'C06_meta_span', 'C06_meta_passthrough', 'C06_meta_span_inlined_token_refuted',
-            'C06_test_newline_false_refuted', 'C06_spans_ordered_nested', 'C06_example']
+            'C06_test_newline_false_refuted', 'C06_spans_ordered_nested', 'C06_example',
+            'C06_tree_coords_exact', 'C06_tree_container_span', 'C06_tree_own_span', 'C06_tree_example']
 GEN_DEPS = ['LineCounter', 'LexStep', 'DynStep']
 RULE = ('random token-soup grammars (1-4 kept + 0-2 ignored terminals from a regex fragment, 1-2 newline-capable '
         'terminals spelled \\n, \\r?\\n, [\\n], \\s, [^...], \\W, \\D, [\\t-\\r], (?s:.), \\x0a, [\\x00-\\x1f], global DOTALL; '
